@@ -37,6 +37,18 @@ func C04() int {
 		it.Kind = "other-with-command"
 		items = append(items, it)
 	}
+	// deep nesting outside the zones: other-component lines and a command line's non-zone attribute
+	for i, d := range []int{40, 90, 97, 98, 99, 100, 101, 102, 103, 130, 200, 500, 2000} {
+		l := g.OtherLine()
+		l.Get("attr").Set("deep", g.DeepTree(d))
+		l.T = &jt.Tag{Role: jt.Keep}
+		items = append(items, rawItem("other-deep", l, i))
+		cs := g.Case(gen.CaseOpts{})
+		dt := g.DeepTree(d)
+		dt.T = &jt.Tag{Role: jt.Keep}
+		cs.Line.Get("attr").Set("deepExtra", dt)
+		items = append(items, mkItem(cs, i))
+	}
 	for i, l := range g.CharsetLines() {
 		kind := "other"
 		if l.T == nil {
